@@ -2,195 +2,80 @@
 //! / `iter` / `iter_mut` interleaved with ordinary fetches of the same resources, run on the real
 //! `shred::MetaTable` with self-reporting implementors, against
 //!   * implementation-side oracles (a reference list of first registrations, the set of present
-//!     resources with their addresses, and the guards the engine itself holds) — kind "impl";
+//!     resources with their addresses, the guards the engine itself holds, and what each type's
+//!     `CastFrom` does — declared in `types::TYPES` and verified on the casts themselves) — kind
+//!     "impl";
 //!   * the Lean model `Model/Meta.lean` behind `meta ...` requests of the driver — kind "model".
+//!
+//! The implementors (`meta/types.rs`): zero-sized / sized / with and without `Drop` / alignments
+//! 1..64 / generic, each kind with the lawful cast and with wrong casts of several shapes (offset,
+//! another object of the same type, a static, a field, an object of another type, lawful-until-armed).
+//! In the unchanged crate (stable variant) `register` never calls the cast: nothing is checked at
+//! registration; the address check runs at every `get` / `get_mut` / `next`, compares addresses
+//! only, and does not depend on the implementor's size. The table is built either for `dyn Obj` or
+//! for `dyn Sub` (a trait with supertraits), chosen by the case.
 //!
 //! Case format = the request lines themselves (`meta reg 3`, `meta next 0`, ...). Guards and
 //! iterators are addressed by position among the live ones (`k mod n`), so every sub-sequence of
 //! a case is again a case (needed for shrinking).
 use crate::common::*;
+use crate::{meta_with_obj as with_obj, meta_with_val as with_val};
 use shred::cell::{AtomicRef, AtomicRefMut};
-use shred::{CastFrom, MetaIter, MetaIterMut, MetaTable, Resource, ResourceId, World};
+use shred::{MetaIter, MetaIterMut, MetaTable, Resource, ResourceId, World};
 use std::collections::{BTreeMap, BTreeSet};
 use std::panic::{catch_unwind, AssertUnwindSafe};
 
-// ---------------------------------------------------------------------------------------------
-// the trait and its implementors
+pub mod types;
+use types::*;
 
-/// `tag` and `addr` never read `*self`: they stay harmless when a vtable was attached to the
-/// wrong value (which is exactly what the oracles must be able to report).
-pub trait Obj {
-    fn tag(&self) -> u32;
-    fn addr(&self) -> usize;
-    fn stamp(&self) -> u64;
-    fn bump(&mut self);
+/// the trait-object type a table is built for
+pub trait Kind: 'static {
+    type D: ?Sized + 'static;
+    const NAME: &'static str;
+    fn obj(d: &Self::D) -> &dyn Obj;
+    fn obj_mut(d: &mut Self::D) -> &mut dyn Obj;
+    fn register<T: Imp>(t: &mut MetaTable<Self::D>);
+    /// the methods of the trait that are not inherited agree with the inherited ones
+    fn own_ok(d: &Self::D) -> bool;
 }
-
-/// every type that goes into the world
-pub trait Val: Resource + Sized {
-    const TAG: u32;
-    /// its `CastFrom` moves the pointer
-    const BAD: bool = false;
-    fn make(stamp: u64) -> Self;
-    fn stamp_of(&self) -> u64;
-}
-
-unsafe impl<T> CastFrom<T> for dyn Obj
-where
-    T: Obj + Val + 'static,
-{
-    fn cast(t: *mut T) -> *mut Self {
-        if T::BAD {
-            // the deliberately wrong implementation: not the pointer it was given
-            t.cast::<u8>().wrapping_add(8).cast::<T>()
-        } else {
-            t
-        }
+pub struct KObj;
+pub struct KSub;
+impl Kind for KObj {
+    type D = dyn Obj;
+    const NAME: &'static str = "dyn Obj";
+    fn obj(d: &Self::D) -> &dyn Obj {
+        d
+    }
+    fn obj_mut(d: &mut Self::D) -> &mut dyn Obj {
+        d
+    }
+    fn register<T: Imp>(t: &mut MetaTable<Self::D>) {
+        t.register::<T>()
+    }
+    fn own_ok(_: &Self::D) -> bool {
+        true
     }
 }
-
-pub struct Zst; // 0: zero-sized
-pub struct Byte {
-    s: u8,
-} // 1
-pub struct Half {
-    s: u16,
-} // 2
-pub struct Word {
-    s: u64,
-} // 3
-pub struct Mid {
-    _a: u32,
-    s: u64,
-    _b: [u16; 11],
-} // 4
-pub struct Big {
-    _head: [u64; 200],
-    s: u64,
-    _tail: [u64; 311],
-} // 5: 4 KiB
-#[repr(align(64))]
-pub struct Aligned {
-    s: u64,
-} // 6
-pub struct Evil {
-    s: u64,
-    _x: [u8; 16],
-} // 7: wrong CastFrom
-pub struct Plain(u64); // 8: a resource that does not implement the trait at all
-
-macro_rules! obj_impl {
-    ($t:ty, $tag:expr, $bad:expr, $int:ty, $mk:expr) => {
-        impl Val for $t {
-            const TAG: u32 = $tag;
-            const BAD: bool = $bad;
-            fn make(stamp: u64) -> Self {
-                let f: fn($int) -> $t = $mk;
-                f(stamp as $int)
-            }
-            fn stamp_of(&self) -> u64 {
-                self.s as u64
-            }
-        }
-        impl Obj for $t {
-            fn tag(&self) -> u32 {
-                $tag
-            }
-            fn addr(&self) -> usize {
-                self as *const Self as *const () as usize
-            }
-            fn stamp(&self) -> u64 {
-                self.s as u64
-            }
-            fn bump(&mut self) {
-                self.s += 1;
-            }
-        }
-    };
-}
-obj_impl!(Byte, 1, false, u8, |s| Byte { s });
-obj_impl!(Half, 2, false, u16, |s| Half { s });
-obj_impl!(Word, 3, false, u64, |s| Word { s });
-obj_impl!(Mid, 4, false, u64, |s| Mid { _a: 0xAAAA_AAAA, s, _b: [0xBBBB; 11] });
-obj_impl!(Big, 5, false, u64, |s| Big { _head: [0x1111; 200], s, _tail: [0x2222; 311] });
-obj_impl!(Aligned, 6, false, u64, |s| Aligned { s });
-obj_impl!(Evil, 7, true, u64, |s| Evil { s, _x: [7; 16] });
-impl Val for Zst {
-    const TAG: u32 = 0;
-    fn make(_: u64) -> Self {
-        Zst
+impl Kind for KSub {
+    type D = dyn Sub;
+    const NAME: &'static str = "dyn Sub (: Obj + Send + Sync)";
+    fn obj(d: &Self::D) -> &dyn Obj {
+        d // upcast through the supertrait part of the vtable
     }
-    fn stamp_of(&self) -> u64 {
-        0
+    fn obj_mut(d: &mut Self::D) -> &mut dyn Obj {
+        d
     }
-}
-impl Obj for Zst {
-    fn tag(&self) -> u32 {
-        0
+    fn register<T: Imp>(t: &mut MetaTable<Self::D>) {
+        t.register::<T>()
     }
-    fn addr(&self) -> usize {
-        self as *const Self as *const () as usize
-    }
-    fn stamp(&self) -> u64 {
-        0
-    }
-    fn bump(&mut self) {}
-}
-impl Val for Plain {
-    const TAG: u32 = 8;
-    fn make(s: u64) -> Self {
-        Plain(s)
-    }
-    fn stamp_of(&self) -> u64 {
-        self.0
+    fn own_ok(d: &Self::D) -> bool {
+        d.sub_tag() == d.tag() + 1000
     }
 }
 
-pub const NTY: usize = 9;
-const BAD: [bool; NTY] = [false, false, false, false, false, false, false, true, false];
-const SIZES: [usize; NTY] = [
-    std::mem::size_of::<Zst>(),
-    std::mem::size_of::<Byte>(),
-    std::mem::size_of::<Half>(),
-    std::mem::size_of::<Word>(),
-    std::mem::size_of::<Mid>(),
-    std::mem::size_of::<Big>(),
-    std::mem::size_of::<Aligned>(),
-    std::mem::size_of::<Evil>(),
-    std::mem::size_of::<Plain>(),
-];
-const BAD_LIST: &str = "7";
-
-/// run `$body` with `$T` bound to the type of tag `$ty` (all nine)
-macro_rules! with_val {
-    ($ty:expr, $T:ident => $body:expr) => {
-        match $ty {
-            0 => { type $T = Zst; $body }
-            1 => { type $T = Byte; $body }
-            2 => { type $T = Half; $body }
-            3 => { type $T = Word; $body }
-            4 => { type $T = Mid; $body }
-            5 => { type $T = Big; $body }
-            6 => { type $T = Aligned; $body }
-            7 => { type $T = Evil; $body }
-            _ => { type $T = Plain; $body }
-        }
-    };
-}
-/// the eight implementors of the trait
-macro_rules! with_obj {
-    ($ty:expr, $T:ident => $body:expr) => {
-        match $ty {
-            0 => { type $T = Zst; $body }
-            1 => { type $T = Byte; $body }
-            2 => { type $T = Half; $body }
-            3 => { type $T = Word; $body }
-            4 => { type $T = Mid; $body }
-            5 => { type $T = Big; $body }
-            6 => { type $T = Aligned; $body }
-            _ => { type $T = Evil; $body }
-        }
-    };
+fn desc(t: u32) -> String {
+    let i = &TYPES[t as usize];
+    format!("{} ({}: size {}, align {}{}{}; cast: {})", t, i.name, i.size, i.align, if i.drop { ", Drop" } else { "" }, if i.generic { ", generic" } else { "" }, i.shape)
 }
 
 // ---------------------------------------------------------------------------------------------
@@ -213,6 +98,10 @@ pub enum Op {
     Collect(u32),
     DropIt(u32),
     End,
+    /// the switch the lawful-until-armed casts look at
+    Arm(bool),
+    /// which trait object the table is for (0 `dyn Obj`, 1 `dyn Sub`); the first one counts
+    Trait(u32),
 }
 impl Op {
     pub fn line(&self) -> String {
@@ -232,6 +121,8 @@ impl Op {
             Op::Collect(k) => format!("meta collect {}", k),
             Op::DropIt(k) => format!("meta dropit {}", k),
             Op::End => "meta end".into(),
+            Op::Arm(b) => format!("meta arm {}", *b as u32),
+            Op::Trait(k) => format!("meta trait {}", k),
         }
     }
     pub fn parse(lines: &[String]) -> Vec<Op> {
@@ -244,18 +135,21 @@ impl Op {
             let ws: Vec<&str> = l.split(' ').filter(|w| !w.is_empty()).collect();
             let ws = if ws.first() == Some(&"meta") { &ws[1..] } else { &ws[..] };
             let n = |i: usize| ws.get(i).and_then(|s| s.parse::<u32>().ok());
+            let all = NTY as u32 - 1;
             let ty = |i: usize, max: u32| n(i).filter(|t| *t <= max);
             let op = match (ws.first().copied().unwrap_or(""), ws.len()) {
                 ("new", _) | ("probe", _) => None,
-                ("reg", 2) => ty(1, 7).map(Op::Reg),
-                ("ins", 2) => ty(1, 8).map(Op::Ins),
-                ("rem", 2) => ty(1, 8).map(Op::Rem),
-                ("fetch", 2) => ty(1, 8).map(Op::Fetch),
-                ("fetchmut", 2) => ty(1, 8).map(Op::FetchMut),
+                ("reg", 2) => ty(1, all).filter(|t| *t != PLAIN).map(Op::Reg),
+                ("ins", 2) => ty(1, all).map(Op::Ins),
+                ("rem", 2) => ty(1, all).map(Op::Rem),
+                ("fetch", 2) => ty(1, all).map(Op::Fetch),
+                ("fetchmut", 2) => ty(1, all).map(Op::FetchMut),
                 ("drop", 2) => n(1).map(Op::Drop),
-                ("get", 2) => ty(1, 8).map(Op::Get),
-                ("getmut", 2) => ty(1, 8).map(Op::GetMut),
-                ("getloc", 2) => ty(1, 8).map(Op::GetLoc),
+                ("get", 2) => ty(1, all).map(Op::Get),
+                ("getmut", 2) => ty(1, all).map(Op::GetMut),
+                ("getloc", 2) => ty(1, all).map(Op::GetLoc),
+                ("arm", 2) => ty(1, 1).map(|b| Op::Arm(b == 1)),
+                ("trait", 2) => ty(1, 1).map(Op::Trait),
                 ("iter", 1) => Some(Op::Iter),
                 ("itermut", 1) => Some(Op::IterMut),
                 ("next", 2) => n(1).map(Op::Next),
@@ -264,19 +158,21 @@ impl Op {
                 ("end", 1) => Some(Op::End),
                 _ => panic!("meta engine: cannot parse case line {:?}", l),
             };
-            if let Some(op) = op {
-                v.push(op);
+            match op {
+                Some(op) => v.push(op),
+                None if matches!(ws.first().copied(), Some("new") | Some("probe")) => {}
+                None => panic!("meta engine: bad argument in case line {:?}", l),
             }
         }
         v
     }
     fn is_mut(&self) -> bool {
-        matches!(self, Op::Reg(_) | Op::Ins(_) | Op::Rem(_))
+        matches!(self, Op::Reg(_) | Op::Ins(_) | Op::Rem(_) | Op::Trait(_))
     }
 }
 
 pub fn case_lines(ops: &[Op]) -> Vec<String> {
-    let mut v = vec![format!("meta new {}", BAD_LIST)];
+    let mut v = vec![format!("meta new {}", cast_spec())];
     v.extend(ops.iter().map(|o| o.line()));
     v
 }
@@ -298,6 +194,8 @@ struct Shadow {
     sh: [u32; NTY],
     ex: [bool; NTY],
     next_stamp: u64,
+    /// the switch of the lawful-until-armed casts
+    armed: bool,
 }
 impl Shadow {
     fn conflict(&self, t: usize, excl: bool) -> bool {
@@ -314,8 +212,16 @@ impl Shadow {
             v.join(" ")
         }
     }
-    fn mask(&self) -> u32 {
-        (0..NTY).filter(|t| self.present[*t].is_some()).map(|t| 1u32 << t).sum()
+    fn mask(&self) -> u64 {
+        (0..NTY).filter(|t| self.present[*t].is_some()).map(|t| 1u64 << t).sum()
+    }
+    /// the `CastFrom` of type `t` returns another address right now
+    fn moves(&self, t: usize) -> bool {
+        moves(t, self.armed)
+    }
+    /// whose methods an accepted conversion of a `t` runs right now
+    fn vt(&self, t: usize) -> u32 {
+        vtable_of(t, self.armed)
     }
 }
 
@@ -333,7 +239,7 @@ pub struct CaseResult {
     /// (aspect, what)
     pub model_v: Vec<(String, String)>,
     pub stats: BTreeMap<String, u64>,
-    pub masks: BTreeSet<u32>,
+    pub masks: BTreeSet<u64>,
     pub history: Vec<String>,
     pub items: u64,
     pub interesting: bool,
@@ -403,8 +309,7 @@ fn probe(w: &World) -> String {
 }
 
 /// the table under test
-type DObj = dyn Obj + 'static;
-type Tbl = MetaTable<DObj>;
+type Tbl<K> = MetaTable<<K as Kind>::D>;
 
 fn guarded<R, F: FnOnce() -> R>(f: F) -> Result<R, Box<dyn std::any::Any + Send>> {
     catch_unwind(AssertUnwindSafe(f))
@@ -432,18 +337,21 @@ enum GetObs {
     None,
     Panic(String),
     /// tag and address reported through the trait object; stamps only if both are right
-    Some { tag: u32, same: bool, stamp: Option<u64>, after_trait: Option<u64>, after_concrete: Option<u64> },
+    Some { tag: u32, same: bool, own: bool, stamp: Option<u64>, after_trait: Option<u64>, after_concrete: Option<u64> },
 }
 
-fn inspect<T: Val>(o: &dyn Obj, want: usize) -> (u32, bool, Option<u64>) {
+/// (tag, same address, own methods consistent, stamp if it certainly is the value itself)
+fn inspect<T: Val, K: Kind>(d: &K::D, want: usize) -> (u32, bool, bool, Option<u64>) {
+    let o = K::obj(d);
     let tag = o.tag();
     let same = o.addr() == want;
+    let own = K::own_ok(d);
     // only read through the pointer when it certainly is the right value of the right type
-    let stamp = if tag == T::TAG && same && !T::BAD { Some(o.stamp()) } else { None };
-    (tag, same, stamp)
+    let stamp = if tag == T::TAG && same { Some(o.stamp()) } else { None };
+    (tag, same, own, stamp)
 }
 
-fn do_get<T: Val>(w: &World, table: &Tbl, excl: bool) -> GetObs {
+fn do_get<T: Val, K: Kind>(w: &World, table: &Tbl<K>, excl: bool) -> GetObs {
     if !excl {
         let f = match catch_unwind(AssertUnwindSafe(|| w.try_fetch::<T>())) {
             Err(p) => return GetObs::FetchPanic(panic_message(&p)),
@@ -456,8 +364,8 @@ fn do_get<T: Val>(w: &World, table: &Tbl, excl: bool) -> GetObs {
             Err(p) => GetObs::Panic(panic_message(&p)),
             Ok(None) => GetObs::None,
             Ok(Some(o)) => {
-                let (tag, same, stamp) = inspect::<T>(o, want);
-                GetObs::Some { tag, same, stamp, after_trait: None, after_concrete: None }
+                let (tag, same, own, stamp) = inspect::<T, K>(o, want);
+                GetObs::Some { tag, same, own, stamp, after_trait: None, after_concrete: None }
             }
         }
     } else {
@@ -473,24 +381,24 @@ fn do_get<T: Val>(w: &World, table: &Tbl, excl: bool) -> GetObs {
                 Err(p) => GetObs::Panic(panic_message(&p)),
                 Ok(None) => GetObs::None,
                 Ok(Some(o)) => {
-                    let (tag, same, stamp) = inspect::<T>(o, want);
+                    let (tag, same, own, stamp) = inspect::<T, K>(o, want);
                     let mut after_trait = None;
                     if stamp.is_some() {
-                        o.bump();
-                        after_trait = Some(o.stamp());
+                        K::obj_mut(o).bump();
+                        after_trait = Some(K::obj(o).stamp());
                     }
-                    GetObs::Some { tag, same, stamp, after_trait, after_concrete: None }
+                    GetObs::Some { tag, same, own, stamp, after_trait, after_concrete: None }
                 }
             }
         };
         match obs {
-            GetObs::Some { tag, same, stamp, after_trait, .. } => GetObs::Some { tag, same, stamp, after_trait, after_concrete: Some(f.stamp_of()) },
+            GetObs::Some { tag, same, own, stamp, after_trait, .. } => GetObs::Some { tag, same, own, stamp, after_trait, after_concrete: Some(f.stamp_of()) },
             o => o,
         }
     }
 }
 
-fn do_getloc<T: Val>(table: &Tbl) -> GetObs {
+fn do_getloc<T: Val, K: Kind>(table: &Tbl<K>) -> GetObs {
     let v = Box::new(T::make(77));
     let want = &*v as *const T as usize;
     let r: &dyn Resource = &*v;
@@ -498,39 +406,43 @@ fn do_getloc<T: Val>(table: &Tbl) -> GetObs {
         Err(p) => GetObs::Panic(panic_message(&p)),
         Ok(None) => GetObs::None,
         Ok(Some(o)) => {
-            let (tag, same, stamp) = inspect::<T>(o, want);
-            GetObs::Some { tag, same, stamp, after_trait: None, after_concrete: None }
+            let (tag, same, own, stamp) = inspect::<T, K>(o, want);
+            GetObs::Some { tag, same, own, stamp, after_trait: None, after_concrete: None }
         }
     }
 }
 
-enum It<'a> {
-    Sh(MetaIter<'a, DObj>),
-    Ex(MetaIterMut<'a, DObj>),
+enum It<'a, K: Kind> {
+    Sh(MetaIter<'a, K::D>),
+    Ex(MetaIterMut<'a, K::D>),
 }
-struct ItS<'a> {
-    it: It<'a>,
+struct ItS<'a, K: Kind> {
+    it: It<'a, K>,
     excl: bool,
     /// position in `Shadow::order` the specification says the iterator is at
     pos: usize,
+    /// types of the resources whose items it yielded
     yielded: Vec<u32>,
 }
 
-/// one real `next()` call: Ok(Some((tag, addr, guard, stamp reader))) / Ok(None) / Err(panic)
-enum Item<'a> {
-    Sh(AtomicRef<'a, DObj>),
-    Ex(AtomicRefMut<'a, DObj>),
+/// one real `next()` call: Ok(Some(item)) / Ok(None) / Err(panic)
+enum Item<'a, K: Kind> {
+    Sh(AtomicRef<'a, K::D>),
+    Ex(AtomicRefMut<'a, K::D>),
 }
-impl<'a> Item<'a> {
-    fn obj(&self) -> &dyn Obj {
+impl<'a, K: Kind> Item<'a, K> {
+    fn d(&self) -> &K::D {
         match self {
             Item::Sh(r) => &**r,
             Item::Ex(r) => &**r,
         }
     }
+    fn obj(&self) -> &dyn Obj {
+        K::obj(self.d())
+    }
 }
 
-fn real_next<'a>(it: &mut It<'a>) -> Result<Option<Item<'a>>, String> {
+fn real_next<'a, K: Kind>(it: &mut It<'a, K>) -> Result<Option<Item<'a, K>>, String> {
     match it {
         It::Sh(i) => catch_unwind(AssertUnwindSafe(|| i.next())).map(|o| o.map(Item::Sh)),
         It::Ex(i) => catch_unwind(AssertUnwindSafe(|| i.next())).map(|o| o.map(Item::Ex)),
@@ -538,37 +450,38 @@ fn real_next<'a>(it: &mut It<'a>) -> Result<Option<Item<'a>>, String> {
     .map_err(|p| panic_message(&p))
 }
 
-struct Phase<'a> {
+struct Phase<'a, K: Kind> {
     world: &'a World,
-    table: &'a Tbl,
+    table: &'a Tbl<K>,
     guards: Vec<(u32, bool, Guard<'a>)>,
-    iters: Vec<ItS<'a>>,
+    iters: Vec<ItS<'a, K>>,
 }
 
 /// what the specification demands of the next call on an iterator at `pos`
-fn expect_next(sh: &Shadow, pos: usize, excl: bool) -> (Exp, usize) {
+/// (.., new position, the type whose resource the call stops at)
+fn expect_next(sh: &Shadow, pos: usize, excl: bool) -> (Exp, usize, Option<u32>) {
     for k in pos..sh.order.len() {
         let t = sh.order[k] as usize;
         if sh.present[t].is_some() {
             if sh.conflict(t, excl) {
-                return (Exp::Panic("panic borrowed"), k + 1);
+                return (Exp::Panic("panic borrowed"), k + 1, Some(t as u32));
             }
-            if BAD[t] {
-                return (Exp::Panic("panic badcast"), k + 1);
+            if sh.moves(t) {
+                return (Exp::Panic("panic badcast"), k + 1, Some(t as u32));
             }
-            return (Exp::Item(t as u32), k + 1);
+            return (Exp::Item(t as u32), k + 1, Some(t as u32));
         }
     }
-    (Exp::None, sh.order.len())
+    (Exp::None, sh.order.len(), None)
 }
 
-impl<'a> Phase<'a> {
+impl<'a, K: Kind> Phase<'a, K> {
     /// one `next()` on iterator `k`, checked against the specification; returns the canonical
     /// observation ("item <tag> same|moved" | "none" | "panic ..")
     fn step(&mut self, k: usize, cx: &mut Cx) -> String {
         let excl = self.iters[k].excl;
         let pos = self.iters[k].pos;
-        let (exp, npos) = expect_next(&cx.sh, pos, excl);
+        let (exp, npos, at) = expect_next(&cx.sh, pos, excl);
         // every type between the old position and the one found (or the end) is registered but absent
         let skipped = if exp == Exp::None { npos - pos.min(npos) } else { npos - 1 - pos };
         if skipped > 0 {
@@ -585,8 +498,13 @@ impl<'a> Phase<'a> {
                 match &exp {
                     Exp::Panic(p) if *p == obs => {
                         cx.res.interesting = true;
-                        if obs == "panic badcast" && !msg.contains("Bug: `CastFrom` did not cast `self`") {
-                            cx.bad("badcast-message", format!("{}.next(): wrong panic message {:?}", kind, msg));
+                        if obs == "panic badcast" {
+                            if let Some(t) = at {
+                                cx.count(&format!("rejected_in_{}:{}", kind, shape_key(t)));
+                            }
+                            if !msg.contains("Bug: `CastFrom` did not cast `self`") {
+                                cx.bad("badcast-message", format!("{}.next(): wrong panic message {:?}", kind, msg));
+                            }
                         }
                     }
                     Exp::Panic(p) => cx.bad("wrong-panic", format!("{}.next() panicked with {:?}, expected `{}`", kind, msg, p)),
@@ -609,54 +527,70 @@ impl<'a> Phase<'a> {
                 cx.res.items += 1;
                 let tag = item.obj().tag();
                 let addr = item.obj().addr();
-                let cell = cx.sh.present.get(tag as usize).copied().flatten();
+                let own = K::own_ok(item.d());
+                // the resource the call was to stop at (if any); otherwise the one the object claims to be
+                let cell_ty = at.or(if (tag as usize) < NTY { Some(tag) } else { None });
+                let cell = cell_ty.and_then(|t| cx.sh.present[t as usize]);
                 let same = cell.map(|c| c.addr == addr).unwrap_or(false);
                 let obs = format!("item {} {}", tag, if same { "same" } else { "moved" });
                 match &exp {
-                    Exp::Item(t) if *t == tag => {
-                        if !same {
-                            cx.bad("address", format!("{}.next() yielded type {} at address {:#x}, the resource lives at {:#x}", kind, tag, addr, cell.map(|c| c.addr).unwrap_or(0)));
+                    Exp::Item(t) => {
+                        let tu = *t as usize;
+                        let want = cx.sh.vt(tu);
+                        if tag != want {
+                            let class = if self.iters[k].yielded.contains(&tag) { "duplicate" } else { "order-or-vtable" };
+                            cx.bad(class, format!("{}.next() yielded an object running the methods of type {} (address {}), expected the resource of type {} next, with the methods of type {} (first-registration order {:?}, present {:?}, yielded so far {:?})", kind, tag, if same { "of the expected resource" } else { "of something else" }, desc(*t), want, cx.sh.order, present_list(&cx.sh), self.iters[k].yielded));
+                        } else if !own {
+                            cx.bad("supertrait-vtable", format!("{}.next() on a table for {}: the item for type {} answers the trait's own method and the inherited one inconsistently", kind, K::NAME, desc(*t)));
+                        } else if !same {
+                            cx.bad("address", format!("{}.next() yielded type {} at address {:#x}, the resource lives at {:#x}", kind, desc(*t), addr, cell.map(|c| c.addr).unwrap_or(0)));
                         } else {
                             let c = cell.unwrap();
                             let mut item = item;
-                            let st = item.obj().stamp();
-                            if st != c.stamp {
-                                cx.bad("value", format!("{}.next(): item of type {} reads stamp {}, the resource holds {}", kind, tag, st, c.stamp));
-                            } else if let Item::Ex(r) = &mut item {
-                                // write through the exclusive item; checked at every later read
-                                r.bump();
-                                if tag != 0 {
-                                    cx.sh.present[tag as usize].as_mut().unwrap().stamp += 1;
+                            if want == *t {
+                                let st = item.obj().stamp();
+                                if st != c.stamp {
+                                    cx.bad("value", format!("{}.next(): item of type {} reads stamp {}, the resource holds {}", kind, desc(*t), st, c.stamp));
+                                    return obs;
+                                } else if let Item::Ex(r) = &mut item {
+                                    // write through the exclusive item; checked at every later read
+                                    K::obj_mut(&mut **r).bump();
+                                    if !is_zst(tu) {
+                                        cx.sh.present[tu].as_mut().unwrap().stamp += 1;
+                                    }
                                 }
+                            } else {
+                                // same address, another type's methods (declared so): accepted by
+                                // the address check; nothing is read or written through it
+                                cx.count("accepted_same_address_other_vtable");
                             }
                             if excl {
-                                cx.sh.ex[tag as usize] = true;
+                                cx.sh.ex[tu] = true;
                             } else {
-                                cx.sh.sh[tag as usize] += 1;
+                                cx.sh.sh[tu] += 1;
                             }
-                            self.iters[k].yielded.push(tag);
-                            self.guards.push((tag, excl, match item {
+                            self.iters[k].yielded.push(*t);
+                            self.guards.push((*t, excl, match item {
                                 Item::Sh(r) => Box::new(r) as Guard<'a>,
                                 Item::Ex(r) => Box::new(r) as Guard<'a>,
                             }));
                             return obs;
                         }
                     }
-                    Exp::Item(t) => {
-                        let class = if self.iters[k].yielded.contains(&tag) { "duplicate" } else { "order-or-vtable" };
-                        cx.bad(class, format!("{}.next() yielded an object reporting type {} (address {}), expected type {} next (first-registration order {:?}, present {:?}, yielded so far {:?})", kind, tag, if same { "of that type's resource" } else { "of something else" }, t, cx.sh.order, present_list(&cx.sh), self.iters[k].yielded));
-                    }
                     Exp::None => {
                         let class = if self.iters[k].yielded.contains(&tag) { "duplicate" } else { "extra" };
-                        cx.bad(class, format!("{}.next() yielded type {} but every registered present type was already yielded ({:?}); registrations {:?}", kind, tag, self.iters[k].yielded, cx.sh.regs));
+                        cx.bad(class, format!("{}.next() yielded an object with the methods of type {} but every registered present type was already yielded ({:?}); registrations {:?}", kind, tag, self.iters[k].yielded, cx.sh.regs));
                     }
                     Exp::Panic(p) => {
-                        let class = if *p == "panic badcast" { "badcast-not-rejected" } else { "borrow-rule" };
-                        cx.bad(class, format!("{}.next() yielded type {} where it must panic (`{}`): cell shared×{} excl={}", kind, tag, p, cx.sh.sh.get(tag as usize).copied().unwrap_or(0), cx.sh.ex.get(tag as usize).copied().unwrap_or(false)));
+                        let t = at.unwrap_or(tag);
+                        if *p == "panic badcast" {
+                            cx.bad("badcast-not-rejected", format!("{}.next() yielded an item (methods of type {}, address {}) for the resource of type {} whose CastFrom changes the address: it must panic with \"Bug: `CastFrom` did not cast `self`\"", kind, tag, if same { "of the resource" } else { "of something else" }, desc(t)));
+                        } else {
+                            cx.bad("borrow-rule", format!("{}.next() yielded type {} where it must panic (`{}`): cell shared×{} excl={}", kind, desc(t), p, cx.sh.sh.get(t as usize).copied().unwrap_or(0), cx.sh.ex.get(t as usize).copied().unwrap_or(false)));
+                        }
                     }
                 }
                 // suspect object: never touch it again, just release it
-                drop(item);
                 obs
             }
         }
@@ -688,7 +622,9 @@ impl<'a> Phase<'a> {
                 };
             }
         }
-        let stamp_exp = if in_world { cx.sh.present[tu].unwrap().stamp } else if t == 0 { 0 } else { 77 };
+        let stamp_exp = if in_world { cx.sh.present[tu].unwrap().stamp } else if is_zst(tu) { 0 } else { 77 };
+        let moves = tu != PLAIN as usize && cx.sh.moves(tu);
+        let want_tag = cx.sh.vt(tu);
         match o {
             GetObs::Absent | GetObs::FetchPanic(_) => {
                 cx.bad("harness", format!("{} {}: the fetch before the call failed unexpectedly", which, t));
@@ -704,31 +640,37 @@ impl<'a> Phase<'a> {
             GetObs::Panic(m) => {
                 let obs = panic_kind(&m);
                 cx.count("get_panic");
-                if registered && BAD[tu] && obs == "panic badcast" {
+                if registered && moves && obs == "panic badcast" {
                     cx.res.interesting = true;
+                    cx.count(&format!("rejected_in_{}:{}", which.replace("(local)", ""), shape_key(t)));
                     if !m.contains("Bug: `CastFrom` did not cast `self`") {
                         cx.bad("badcast-message", format!("{}: wrong panic message {:?}", which, m));
                     }
                 } else {
-                    cx.bad("unexpected-panic", format!("{} on type {} panicked: {:?} (registered: {}, wrong cast: {})", which, t, m, registered, BAD[tu]));
+                    cx.bad("unexpected-panic", format!("{} on type {} panicked: {:?} (registered: {}, its cast changes the address: {})", which, desc(t), m, registered, moves));
                 }
                 obs
             }
-            GetObs::Some { tag, same, stamp, after_trait, after_concrete } => {
+            GetObs::Some { tag, same, own, stamp, after_trait, after_concrete } => {
                 cx.count("get_some");
                 let obs = format!("some {} {}", tag, if same { "same" } else { "moved" });
                 if !registered {
-                    cx.bad("get-iff", format!("{} on a resource of type {} returned Some, but that type was never registered (registrations {:?})", which, t, cx.sh.regs));
-                } else if BAD[tu] {
-                    cx.bad("badcast-not-rejected", format!("{} on type {} returned a reference although its CastFrom changes the address (object reports address {})", which, t, if same { "unchanged" } else { "moved" }));
-                } else if tag != t {
-                    cx.bad("order-or-vtable", format!("{} on a resource of type {} returned an object whose methods are those of type {}", which, t, tag));
+                    cx.bad("get-iff", format!("{} on a resource of type {} returned Some, but that type was never registered (registrations {:?})", which, desc(t), cx.sh.regs));
+                } else if moves {
+                    cx.bad("badcast-not-rejected", format!("{} on a resource of type {} returned a reference (methods of type {}, address {}) although its CastFrom changes the address: it must panic with \"Bug: `CastFrom` did not cast `self`\"", which, desc(t), tag, if same { "unchanged" } else { "of something else" }));
+                } else if tag != want_tag {
+                    cx.bad("order-or-vtable", format!("{} on a resource of type {} returned an object whose methods are those of type {}, expected those of type {}", which, desc(t), tag, want_tag));
+                } else if !own {
+                    cx.bad("supertrait-vtable", format!("{} on a table for {}: the object for type {} answers the trait's own method and the inherited one inconsistently", which, K::NAME, desc(t)));
                 } else if !same {
-                    cx.bad("address", format!("{} on type {} returned an object at another address", which, t));
+                    cx.bad("address", format!("{} on type {} returned an object at another address", which, desc(t)));
+                } else if want_tag != t {
+                    // same address, another type's methods (declared so): nothing read or written
+                    cx.count("accepted_same_address_other_vtable");
                 } else if stamp != Some(stamp_exp) {
-                    cx.bad("value", format!("{} on type {}: object reads stamp {:?}, the resource holds {}", which, t, stamp, stamp_exp));
+                    cx.bad("value", format!("{} on type {}: object reads stamp {:?}, the resource holds {}", which, desc(t), stamp, stamp_exp));
                 } else if excl {
-                    let want = if t == 0 { 0 } else { stamp_exp + 1 };
+                    let want = if is_zst(tu) { 0 } else { stamp_exp + 1 };
                     if after_trait != Some(want) || after_concrete != Some(want) {
                         cx.bad("value", format!("get_mut on type {}: after bump() through the trait object it reads {:?}, the resource itself {:?}, expected {}", t, after_trait, after_concrete, want));
                     } else {
@@ -741,7 +683,7 @@ impl<'a> Phase<'a> {
     }
 
     fn run(&mut self, ops: &[Op], cx: &mut Cx) {
-        let (table, world): (&'a Tbl, &'a World) = (self.table, self.world);
+        let (table, world): (&'a Tbl<K>, &'a World) = (self.table, self.world);
         for op in ops {
             if cx.stop {
                 return;
@@ -792,15 +734,15 @@ impl<'a> Phase<'a> {
                     }
                 }
                 Op::Get(t) => {
-                    let o = with_val!(*t, T => do_get::<T>(self.world, self.table, false));
+                    let o = with_val!(*t, T => do_get::<T, K>(self.world, self.table, false));
                     self.check_get(*t, "get", o, cx)
                 }
                 Op::GetMut(t) => {
-                    let o = with_val!(*t, T => do_get::<T>(self.world, self.table, true));
+                    let o = with_val!(*t, T => do_get::<T, K>(self.world, self.table, true));
                     self.check_get(*t, "get_mut", o, cx)
                 }
                 Op::GetLoc(t) => {
-                    let o = with_val!(*t, T => do_getloc::<T>(self.table));
+                    let o = with_val!(*t, T => do_getloc::<T, K>(self.table));
                     self.check_get(*t, "get(local)", o, cx)
                 }
                 Op::Iter => {
@@ -864,7 +806,12 @@ impl<'a> Phase<'a> {
                         "ok".into()
                     }
                 }
-                Op::End | Op::Reg(_) | Op::Ins(_) | Op::Rem(_) => unreachable!("phase boundary inside a phase"),
+                Op::Arm(b) => {
+                    arm(*b);
+                    cx.sh.armed = *b;
+                    "ok".into()
+                }
+                Op::End | Op::Reg(_) | Op::Ins(_) | Op::Rem(_) | Op::Trait(_) => unreachable!("phase boundary inside a phase"),
             };
             cx.model(&line, &obs, "outcome");
             if cx.stop {
@@ -887,16 +834,43 @@ fn present_list(sh: &Shadow) -> Vec<usize> {
     (0..NTY).filter(|t| sh.present[*t].is_some()).collect()
 }
 
+/// the first `meta trait` line of a case says which trait object its table is for
 pub fn eval_case(ops: &[Op], drv: Option<&mut Drv>) -> CaseResult {
+    let kind = ops.iter().find_map(|o| if let Op::Trait(k) = o { Some(*k) } else { None }).unwrap_or(0);
+    if kind == 1 {
+        eval_kind::<KSub>(ops, drv)
+    } else {
+        eval_kind::<KObj>(ops, drv)
+    }
+}
+
+fn shape_key(t: u32) -> String {
+    let i = &TYPES[t as usize];
+    let shape = match i.shape.split(' ').next().unwrap_or("") {
+        "other" => "twin",
+        "object" => "decoy",
+        "zero-sized" if i.shape.contains("field") => "field",
+        "zero-sized" => "decoy",
+        "lawful," => "switch",
+        w => w,
+    };
+    format!("{}{}{}:{}", if i.size == 0 { "zst" } else { "sized" }, if i.drop { "+drop" } else { "" }, if i.generic { "+generic" } else { "" }, shape)
+}
+
+fn eval_kind<K: Kind>(ops: &[Op], drv: Option<&mut Drv>) -> CaseResult {
+    static CHECKED: std::sync::Once = std::sync::Once::new();
+    CHECKED.call_once(table_selfcheck);
+    arm(false);
+    let live_before = live();
     let mut world = World::empty();
-    let mut table = Tbl::new();
+    let mut table = Tbl::<K>::new();
     let mut cx = Cx {
         drv,
-        sh: Shadow { order: vec![], regs: vec![], present: [None; NTY], sh: [0; NTY], ex: [false; NTY], next_stamp: 1 },
+        sh: Shadow { order: vec![], regs: vec![], present: [None; NTY], sh: [0; NTY], ex: [false; NTY], next_stamp: 1, armed: false },
         res: CaseResult::default(),
         stop: false,
     };
-    cx.model(&format!("meta new {}", BAD_LIST), "ok", "outcome");
+    cx.model(&format!("meta new {}", cast_spec()), "ok", "outcome");
     let mut i = 0;
     while i < ops.len() && !cx.stop {
         let op = &ops[i];
@@ -904,8 +878,13 @@ pub fn eval_case(ops: &[Op], drv: Option<&mut Drv>) -> CaseResult {
             let line = op.line();
             cx.count(&format!("op_{}", line.split(' ').nth(1).unwrap_or("")));
             let obs = match op {
+                Op::Trait(_) => "ok".to_string(),
                 Op::Reg(t) => {
-                    let r = catch_unwind(AssertUnwindSafe(|| with_obj!(*t, T => table.register::<T>())));
+                    // the stable `register` never calls the cast: no type is rejected here
+                    let r = catch_unwind(AssertUnwindSafe(|| with_obj!(*t, T => K::register::<T>(&mut table))));
+                    if TYPES[*t as usize].kind != CastKind::Lawful {
+                        cx.count(&format!("registered:{}", shape_key(*t)));
+                    }
                     if cx.sh.order.contains(t) {
                         cx.count("repeated_registrations");
                         cx.res.interesting = true;
@@ -917,7 +896,7 @@ pub fn eval_case(ops: &[Op], drv: Option<&mut Drv>) -> CaseResult {
                         Ok(()) => "ok".to_string(),
                         Err(p) => {
                             let m = panic_message(&p);
-                            cx.bad("unexpected-panic", format!("register of type {} panicked: {:?}", t, m));
+                            cx.bad("unexpected-panic", format!("register of type {} panicked: {:?}", desc(*t), m));
                             panic_kind(&m)
                         }
                     }
@@ -957,7 +936,7 @@ pub fn eval_case(ops: &[Op], drv: Option<&mut Drv>) -> CaseResult {
         }
         let j = i + ops[i..].iter().position(|o| o.is_mut() || *o == Op::End).unwrap_or(ops.len() - i);
         {
-            let mut ph = Phase { world: &world, table: &table, guards: vec![], iters: vec![] };
+            let mut ph: Phase<'_, K> = Phase { world: &world, table: &table, guards: vec![], iters: vec![] };
             ph.run(&ops[i..j], &mut cx);
             cx.res.stats.entry("max_live_guards".into()).and_modify(|m| *m = (*m).max(ph.guards.len() as u64)).or_insert(ph.guards.len() as u64);
             // everything the phase held is dropped here
@@ -982,24 +961,51 @@ pub fn eval_case(ops: &[Op], drv: Option<&mut Drv>) -> CaseResult {
             j
         };
     }
+    arm(false);
+    drop(table);
+    drop(world);
+    if !cx.stop && live() != live_before {
+        cx.bad("drop-count", format!("{} values of types with Drop are alive after the world was dropped (0 expected): a conversion or an iterator dropped or leaked a resource", live() - live_before));
+    }
     cx.res
 }
 
 // ---------------------------------------------------------------------------------------------
 // generation
 
+/// implementors with the lawful cast
+const GOOD: [u32; 15] = [0, 1, 2, 3, 4, 5, 6, 9, 10, 11, 12, 13, 14, 15, 16];
+fn wrong_types() -> Vec<u32> {
+    (0..NTY as u32).filter(|t| TYPES[*t as usize].kind != CastKind::Lawful).collect()
+}
+
 fn gen_case(rng: &mut Rng, long: bool) -> Vec<Op> {
     let mut ops = vec![];
-    let mut uni: Vec<u32> = (0..7).filter(|_| rng.chance(70)).collect();
+    if rng.chance(25) {
+        ops.push(Op::Trait(1));
+    }
+    let mut uni: Vec<u32> = GOOD.iter().copied().filter(|_| rng.chance(30)).collect();
     if uni.len() < 2 {
         uni = vec![0, 3, 5];
     }
-    if rng.chance(30) {
-        uni.push(7);
+    let wrong = wrong_types();
+    let nwrong = match rng.below(100) {
+        0..=44 => 0,
+        45..=74 => 1,
+        75..=92 => 2,
+        _ => 4,
+    };
+    for _ in 0..nwrong {
+        let t = *rng.pick(&wrong);
+        if !uni.contains(&t) {
+            uni.push(t);
+        }
     }
+    rng.shuffle(&mut uni);
+    let has_switch = uni.iter().any(|t| TYPES[*t as usize].kind == CastKind::Switch);
     let objs = uni.clone();
     if rng.chance(35) {
-        uni.push(8);
+        uni.push(PLAIN);
     }
     let classic = rng.chance(30);
     let rounds = 1 + rng.below(3);
@@ -1027,10 +1033,16 @@ fn gen_case(rng: &mut Rng, long: bool) -> Vec<Op> {
             let mut seq = vec![vec![Op::Iter, Op::Collect(0)], vec![Op::IterMut, Op::Collect(0)]];
             rng.shuffle(&mut seq);
             for s in seq {
+                if has_switch && rng.chance(30) {
+                    ops.push(Op::Arm(rng.chance(60)));
+                }
                 ops.extend(s);
                 ops.push(Op::End);
             }
             for &t in &uni {
+                if has_switch && rng.chance(15) {
+                    ops.push(Op::Arm(rng.chance(50)));
+                }
                 if rng.chance(60) {
                     ops.push(match rng.below(3) {
                         0 => Op::Get(t),
@@ -1044,6 +1056,9 @@ fn gen_case(rng: &mut Rng, long: bool) -> Vec<Op> {
         let n = 4 + rng.below(if long { 40 } else { 18 });
         let mut live_iters = 0u32;
         for _ in 0..n {
+            if has_switch && rng.chance(8) {
+                ops.push(Op::Arm(rng.chance(50)));
+            }
             let r = rng.below(100);
             let t = *rng.pick(&uni);
             let k = rng.below(4) as u32;
@@ -1079,10 +1094,51 @@ fn gen_case(rng: &mut Rng, long: bool) -> Vec<Op> {
     ops
 }
 
-/// every subset of {Zst, Byte, Big, Aligned, Evil} present × every registration sequence of
-/// length ≤ 3 over these five types (repeats included): both iterators to the end, every lookup
-fn small_scope(todo: &mut Vec<(String, Vec<Op>)>) {
-    let tys = [0u32, 1, 5, 6, 7];
+/// For every type, for both trait objects: alone and between two lawful types, every operation,
+/// with the switch off and on. Run in every tier: each kind of implementor × each shape of cast ×
+/// register / get / get_mut / get outside the world / iter / iter_mut is met whatever the seed.
+fn systematic(todo: &mut Vec<(String, Vec<Op>)>) {
+    for kind in 0..2u32 {
+        for t in 0..NTY as u32 {
+            let head = if kind == 1 { vec![Op::Trait(1)] } else { vec![] };
+            let lookups = [Op::Get(t), Op::GetMut(t), Op::GetLoc(t)];
+            let loops = [Op::Iter, Op::Collect(0), Op::End, Op::IterMut, Op::Collect(0), Op::End];
+            // alone
+            let mut a = head.clone();
+            if t != PLAIN {
+                a.push(Op::Reg(t));
+            }
+            a.push(Op::Ins(t));
+            for armed in [false, true] {
+                a.push(Op::Arm(armed));
+                a.extend(lookups.iter().cloned());
+                a.extend(loops.iter().cloned());
+            }
+            a.extend([Op::Arm(false), Op::Get(t)]);
+            todo.push((format!("sys:{}:alone:{}", kind, t), a));
+            if t == PLAIN {
+                continue;
+            }
+            // between two lawful types, registered twice, stepping past the rejected one; then
+            // removed and iterated again
+            let (l, r) = if t == 3 || t == 1 { (4, 2) } else { (3, 1) };
+            let mut b = head.clone();
+            b.extend([Op::Reg(l), Op::Reg(t), Op::Reg(r), Op::Reg(t), Op::Ins(r), Op::Ins(t), Op::Ins(l)]);
+            for armed in [false, true] {
+                b.push(Op::Arm(armed));
+                for it in [Op::Iter, Op::IterMut] {
+                    b.extend([it, Op::Next(0), Op::Next(0), Op::Next(0), Op::Next(0), Op::End]);
+                }
+            }
+            b.extend([Op::Rem(t), Op::Iter, Op::Collect(0), Op::End, Op::Ins(t), Op::Arm(true), Op::IterMut, Op::Collect(0), Op::GetLoc(t), Op::End]);
+            todo.push((format!("sys:{}:between:{}", kind, t), b));
+        }
+    }
+}
+
+/// every subset of `tys` present × every registration sequence of length ≤ 3 over these types
+/// (repeats included): both iterators to the end, every lookup
+fn small_scope(todo: &mut Vec<(String, Vec<Op>)>, name: &str, tys: [u32; 5], armed: bool) {
     let mut seqs: Vec<Vec<u32>> = vec![vec![]];
     let mut frontier: Vec<Vec<u32>> = vec![vec![]];
     for _ in 0..3 {
@@ -1106,13 +1162,16 @@ fn small_scope(todo: &mut Vec<(String, Vec<Op>)>) {
                     ops.push(Op::Ins(t));
                 }
             }
+            if armed {
+                ops.push(Op::Arm(true));
+            }
             ops.extend([Op::Iter, Op::Collect(0), Op::End, Op::IterMut, Op::Collect(0), Op::End]);
             for &t in &tys {
                 ops.push(Op::Get(t));
                 ops.push(Op::GetMut(t));
             }
             n += 1;
-            todo.push((format!("small:{}", n), ops));
+            todo.push((format!("small:{}:{}", name, n), ops));
         }
     }
 }
@@ -1144,7 +1203,7 @@ pub fn run(args: &Args, rep: &mut Report) {
     let cases = args.num("cases", 400);
     let long = args.flag("long");
     let mut drv = Drv::spawn(&args.str("driver", "/verif/lean/.lake/build/bin/driver"));
-    rep.rule = "histories of register (with repeats) / world insert+remove / get / get_mut / get on a value outside the world / iter / iter_mut / next / whole-loop collect, interleaved with try_fetch / try_fetch_mut guards of the same resources, over 9 types (sizes in `type_sizes`; 7 = wrong CastFrom, 8 = does not implement the trait); distinct = distinct (request, observed answer) histories; non-trivial = an iterator yielded at least one item and the history contains a repeated registration, a registered-but-absent type skipped, or an expected panic (borrow conflict / rejected cast)".into();
+    rep.rule = "histories of register (with repeats) / world insert+remove / get / get_mut / get on a value outside the world / iter / iter_mut / next / whole-loop collect, interleaved with try_fetch / try_fetch_mut guards of the same resources, over 40 types (listed in `types`: zero-sized / sized / Drop / aligned / generic implementors, each kind with the lawful CastFrom and with wrong ones — offset, another object of the same type, a static, a field, an object of another type, lawful until a switch is armed; 8 = does not implement the trait), on a table for `dyn Obj` or for a trait with supertraits; besides the random histories, for every type and both traits two fixed histories exercise register / get / get_mut / get outside the world / iter / iter_mut with the switch off and on; distinct = distinct (request, observed answer) histories; non-trivial = an iterator yielded at least one item and the history contains a repeated registration, a registered-but-absent type skipped, or an expected panic (borrow conflict / rejected cast)".into();
     let mut todo: Vec<(String, Vec<Op>)> = vec![];
     if let Some(f) = args.get("replay") {
         let text = std::fs::read_to_string(&f).expect("replay file");
@@ -1164,8 +1223,14 @@ pub fn run(args: &Args, rep: &mut Report) {
         }
     }
     if args.get("replay").is_none() {
+        systematic(&mut todo);
         if args.flag("small-scope") {
-            small_scope(&mut todo);
+            // {Zst, Byte, Big, Aligned, Evil}
+            small_scope(&mut todo, "a", [0, 1, 5, 6, 7], false);
+            // {ZstTwin, Field0, ZstDecoy, WordSw, Gen<u8>} with the switch on
+            small_scope(&mut todo, "b", [22, 28, 32, 38, 13], true);
+            // {ZstOff, ZstStat, DropTwin, ZstA64, ZstSw}
+            small_scope(&mut todo, "c", [17, 26, 24, 9, 39], false);
         }
         for c in 0..cases {
             let mut rng = Rng::new(seed, c);
@@ -1173,7 +1238,7 @@ pub fn run(args: &Args, rep: &mut Report) {
         }
     }
     let mut reported: BTreeSet<String> = Default::default();
-    let mut masks: BTreeSet<u32> = Default::default();
+    let mut masks: BTreeSet<u64> = Default::default();
     for (label, ops) in todo {
         drv.begin_case();
         let res = eval_case(&ops, Some(&mut drv));
@@ -1217,5 +1282,6 @@ pub fn run(args: &Args, rep: &mut Report) {
     }
     rep.add("distinct_present_subsets_iterated", masks.len() as u64);
     rep.add("driver_requests", drv.requests);
-    rep.extra.push(("type_sizes".into(), Json::Arr(SIZES.iter().map(|s| Json::n(*s as u64)).collect())));
+    rep.extra.push(("type_sizes".into(), Json::Arr(TYPES.iter().map(|i| Json::n(i.size as u64)).collect())));
+    rep.extra.push(("types".into(), Json::Arr((0..NTY as u32).map(|t| Json::s(desc(t))).collect())));
 }
